@@ -115,6 +115,8 @@ def canaries(case):
             return t
         c['texts'] = [corrupt(t) for t in c['texts']]
         return [c]
+    if any(ch == 95 or ch >= 128 for ch in case['text']):
+        return []           # underscores / non-ASCII digits: the law allows any finite result there
     if case['pf'].get('t') == 'null':
         c['pf'] = {'t': 'num', 'f': 'x', 'v': 'inf'}
     else:
